@@ -34,6 +34,19 @@ PROPS = {
         "exhaustive": False,
         "label": "full",
     },
+    "C04": {
+        "components": ["atomic", "crash", "faults"],
+        "trusted_base": [KERNEL, EXTRACT, HARNESSTB, FSNOTE,
+                         "modelled, not verified: rename(2) as one atomic step (ACommit / OpSymlink), the pending file as a separately named object, the deferred Cleanup as the last step of recvFile1; goroutine scheduling between generator and receiver, and the asynchronous clean-up after Do returned an error, are observed end to end, not modelled"],
+        "assumptions": [
+            "observation = the receiving side blocked in Read at byte N of the stream towards it (library pull: client receives; library push: daemon handler receives); SIGKILL is delivered by the receiving process to itself at byte N",
+            "after an error return the other goroutine's clean-up is asynchronous: the oracle polls up to 3 s after the connection was closed",
+            "power-loss durability (fsync ordering) is outside what can be observed here",
+        ],
+        "rule": "unit: real recvFile1 fed through a reader that stops at every token boundary (header, each literal / block-reference token, end marker) and observes target + pending file; streams over new and existing files, good and corrupted trailers, stream cut at every boundary; compared step by step with the model and with the property oracle. end to end: multi-file sessions (new, edited, unrelated, truncated priors; replaced and new symlinks; files of many tokens) in library pull and push, one session with 80 (quick) / 1500 (thorough) freeze points across the whole stream, sessions cut at random offsets of either direction, sessions killed at random offsets; every listed path must hold its complete previous or complete new content, no temporary entry may remain after an error return. plus the C03 fault component. non-trivial = stream of at least one data token",
+        "exhaustive": False,
+        "label": "full for the receiver's commit protocol; scheduling / asynchronous clean-up by end-to-end oracle",
+    },
     "C10": {
         "components": ["genops", "recvmeta", "ssession", "dryrun"],
         "trusted_base": [KERNEL, EXTRACT, HARNESSTB, GEN, MD4NOTE, FSNOTE,
